@@ -230,11 +230,57 @@ def clamp (b : Bytes) : Bytes :=
 /-- `x25519.EdPrivateKeyToX25519` -/
 def scalarOf (cv : Curve) (seed : Bytes) : Bytes := clamp ((cv.sha512 seed).take 32)
 
-/-- `sharedKey(ourKey, serverKey)` -/
+/-- `sharedKey(ourKey, serverKey)`: the conversion fails on an invalid encoding, and `x25519.X25519` returns an error
+when the result is all zero (the peer's point has small order) -/
 def sharedKey (cv : Curve) (ourSeed peerPub : Bytes) : Outcome Bytes :=
   match cv.toMont peerPub with
   | none => .err "invalid public key"
-  | some u => .ok (cv.x25519 (scalarOf cv ourSeed) u)
+  | some u =>
+    let r := cv.x25519 (scalarOf cv ourSeed) u
+    if r.all (· == 0) then .err "low order point" else .ok r
+
+/-! #### executable Edwards → Montgomery conversion (specification level, compared with the code on every run)
+
+p = 2^255 − 19, Edwards curve −x² + y² = 1 + d·x²·y² with d = −121665/121666. A 32-byte string encodes y (little endian,
+bit 255 is the sign of x). It is a point iff (y² − 1)/(d·y² + 1) is a square; its Montgomery form is u = (1+y)/(1−y).
+The u-coordinates of the points of small order (RFC 7748 §6.1 / the usual blacklist) make X25519 return zero. -/
+
+def p25519 : Nat := 2 ^ 255 - 19
+
+def powMod (b e m : Nat) : Nat := Id.run do
+  let mut r := 1
+  let mut base := b % m
+  let mut ex := e
+  for _ in [0:256] do
+    if ex % 2 = 1 then r := r * base % m
+    base := base * base % m
+    ex := ex / 2
+  return r
+
+def invMod (a : Nat) : Nat := powMod a (p25519 - 2) p25519
+
+def edD : Nat := (p25519 - 121665 % p25519) * invMod 121666 % p25519
+
+def leToNat (b : Bytes) : Nat := b.foldr (fun x acc => x.toNat + 256 * acc) 0
+
+def natToLe32 (n : Nat) : Bytes := (List.range 32).map fun i => UInt8.ofNat (n / 256 ^ i % 256)
+
+def lowOrderU : List Nat := [0, 1, p25519 - 1,
+  325606250916557431795983626356110631294008115727848805560023387167927233504,
+  39382357235489614581723060781553021112529911719440698176882885853963445705823]
+
+/-- `some u` for an encoding of a curve point, `none` otherwise -/
+def toMontSpec (pub : Bytes) : Option Bytes :=
+  if pub.length ≠ 32 then none else
+  let y := leToNat pub % 2 ^ 255 % p25519
+  let num := (y * y + p25519 - 1) % p25519
+  let den := (edD * (y * y % p25519) + 1) % p25519
+  let x2 := num * invMod den % p25519
+  if x2 = 0 ∨ powMod x2 ((p25519 - 1) / 2) p25519 = 1 then
+    some (natToLe32 ((1 + y) * invMod ((1 + p25519 - y) % p25519) % p25519))
+  else none
+
+def isLowOrderU (u : Bytes) : Bool := lowOrderU.contains (leToNat u % 2 ^ 255 % p25519)
 
 /-- `newKeys(peerPublicKey)` for the seed drawn from `rand.Reader`: (public key that is SENT, shared secret) -/
 def newKeys (cv : Curve) (seed peerPub : Bytes) : Outcome (Bytes × Bytes) :=
